@@ -1,9 +1,7 @@
 package index
 
 import (
-	"errors"
 	"fmt"
-	"io/fs"
 	"log"
 	"os"
 	"path/filepath"
@@ -33,7 +31,8 @@ func Merge(indexDir string, indexes []*Reader) ([]*Reader, error) {
 					fn := mergedFilename(indexDir, indexes[0], nextName)
 					for nextName++; ; nextName++ {
 						// never overwrite a file left behind by an earlier merge, it may be one of the inputs
-						if _, err := os.Stat(fn); errors.Is(err, fs.ErrNotExist) {
+						if _, err := os.Stat(fn); err != nil {
+							// the name is free (or the directory can't be read, then creating the file fails)
 							break
 						}
 						fn = mergedFilename(indexDir, indexes[0], nextName)
